@@ -26,6 +26,7 @@ type Msg struct {
 	Char  int        `json:"char,omitempty"`
 	Spans []gen.Span `json:"spans,omitempty"` // set when the (last) text is a pristine generated script
 	Valid bool       `json:"valid,omitempty"`
+	Ver   int        `json:"ver,omitempty"`  // document version carried by open / change (per document, restarts at 1 after a close)
 	Kill  bool       `json:"kill,omitempty"` // subprocess tier: SIGKILL the server before this message, then restart and re-open
 	Cut   int        `json:"cut,omitempty"`  // subprocess tier with Kill: bytes of this frame written before the kill
 }
@@ -50,7 +51,7 @@ func viol(oracle, class, detail string) *core.Violation {
 	return &core.Violation{Property: "C19", Oracle: oracle, Class: class, Predicate: class, Detail: detail}
 }
 
-var uris = []string{"file:///w/a.num", "file:///w/b.num", "file:///w/sub/c.num", "file:///w/d%20e.num"}
+var uris = []string{"file:///w/a.num", "file:///w/b.num", "file:///w/A.num", "file:///w/sub/c.num", "file:///w/d%20e.num", "file:///w/d e.num"}
 
 const ghostURI = "file:///w/never-opened.num"
 
@@ -74,14 +75,23 @@ func (m Msg) method() string {
 		return "textDocument/definition"
 	case "symbols":
 		return "textDocument/documentSymbol"
+	case "close":
+		return "textDocument/didClose"
 	}
 	return "workspace/somethingUnknown"
 }
 
-func (m Msg) isNotification() bool { return m.Kind == "open" || m.Kind == "change" }
+func (m Msg) isNotification() bool { return m.Kind == "open" || m.Kind == "change" || m.Kind == "close" }
+
+func (m Msg) isUpdate() bool { return m.Kind == "open" || m.Kind == "change" }
 
 func (m Msg) params(version int) any {
+	if m.Ver > 0 {
+		version = m.Ver
+	}
 	switch m.Kind {
+	case "close":
+		return map[string]any{"textDocument": map[string]any{"uri": m.URI}}
 	case "init":
 		return map[string]any{"processId": 1, "capabilities": map[string]any{}}
 	case "open":
@@ -228,9 +238,18 @@ func genHistory(r *rand.Rand, tier string) Case {
 		}
 	}
 	var asked [][2]int
+	version := map[string]int{}
 	for len(c.Msgs) < n {
 		u := uris[r.IntN(nuri)]
 		_, opened := latest[u]
+		if opened && r.IntN(25) == 0 {
+			// close and re-open: the version counter of the document restarts, the text must still be taken
+			d := newText(u)
+			version[u] = 1
+			c.Msgs = append(c.Msgs, Msg{Kind: "close", URI: u}, Msg{Kind: "open", URI: u, Texts: []string{d.Text}, Spans: d.Spans, Valid: d.Valid, Ver: 1})
+			latest[u] = d
+			continue
+		}
 		w := []float64{2, 5, 4, 3, 2, 0.7, 0.5, 0.5}
 		if !opened {
 			w = []float64{6, 0.6, 0.5, 0.5, 0.5, 0.7, 0.3, 0}
@@ -238,7 +257,8 @@ func genHistory(r *rand.Rand, tier string) Case {
 		switch core.Weighted(r, w) {
 		case 0:
 			d := newText(u)
-			c.Msgs = append(c.Msgs, Msg{Kind: "open", URI: u, Texts: []string{d.Text}, Spans: d.Spans, Valid: d.Valid})
+			version[u]++
+			c.Msgs = append(c.Msgs, Msg{Kind: "open", URI: u, Texts: []string{d.Text}, Spans: d.Spans, Valid: d.Valid, Ver: version[u]})
 			latest[u] = d
 		case 1:
 			k := 1
@@ -255,7 +275,8 @@ func genHistory(r *rand.Rand, tier string) Case {
 				texts = append(texts, d.Text)
 				latest[u] = d
 			}
-			c.Msgs = append(c.Msgs, Msg{Kind: "change", URI: u, Texts: texts, Spans: d.Spans, Valid: d.Valid})
+			version[u]++
+			c.Msgs = append(c.Msgs, Msg{Kind: "change", URI: u, Texts: texts, Spans: d.Spans, Valid: d.Valid, Ver: version[u]})
 		case 2, 3:
 			kind := "hover"
 			if r.IntN(5) < 2 {
@@ -279,7 +300,7 @@ func genHistory(r *rand.Rand, tier string) Case {
 		default:
 			// re-send the previous notification unchanged
 			for j := len(c.Msgs) - 1; j >= 0; j-- {
-				if c.Msgs[j].isNotification() {
+				if c.Msgs[j].isUpdate() {
 					c.Msgs = append(c.Msgs, c.Msgs[j])
 					d := Doc{Text: c.Msgs[j].latestText(), Spans: c.Msgs[j].Spans, Valid: c.Msgs[j].Valid}
 					latest[c.Msgs[j].URI] = d
